@@ -1,5 +1,6 @@
 """C02: captured variables are exactly the bindings of the successful path."""
 from props.core import *
+from props.common import E2, E3, E4, MB_TEXTS
 
 ASSUMPTIONS = ["variables are compared as sorted maps (nested for named loops); named-loop nests are model+correspondence only (outside the theorem)"]
 
@@ -56,6 +57,11 @@ def backref_cases(quick):
            "find all { 'a' ((maybe s) = x) 'b' x } = s", "set s to pattern ('(' maybe s ')') = x\nfind all s", "find all { ('a' = y) (maybe s = x) 'b' } = s y"]
     rtexts = ["ab", "aabb", "aaabbb", "aabb-aabb", "aabb-abb", "(())", "((()))", "()", "aabbb", "aab", "aaabbbab", "ab-ab"]
     cases += [{"src": p, "texts": rtexts} for p in rec]
+    # a capture taken after a character of several bytes: the bound text is the BYTES between where the capture began and where it ended
+    mb = ["find all '%s' (('a' = x 'b') or ('a' = y 'c'))" % E2, "find all '%s' at least 1 (digit = d)" % E3, "find all '%s' ((at least 1 any) = w) '-' w" % E2,
+          "find all ('%s' = x) maybe ('a' = y) maybe x" % E2, "find all any ('a' = x) maybe (any = y)", "find all (any any = x) maybe x", "find all '%s' at least 1 (('a' = x) maybe ('b' = y)) named r" % E2,
+          "find all {'%s' ('a' = x)} = s" % E2, "replace all '%s' ('a' = x) with '<' x '>'" % E2, "find all (at least 1 (not 'a') = x) 'a'"]
+    cases += [{"src": p, "texts": MB_TEXTS} for p in mb]
     return cases
 
 
